@@ -26,6 +26,7 @@ type Instance struct {
 	SolverMs int      // per-query timeout
 	Reach    []string // labels that must be reached by some path (vacuity guard)
 	OnlyAsserts bool // implicit obligations (panics) end the path without being reported: they are another property's subject
+	NoWitness   string // reason why completed paths of this instance are not replayed natively (translator validation)
 	Expect   []string // violation keys that MUST be found (mutation witnesses / twins): instance passes iff found
 	Replay   string   // "native" (default), "stubbed" (native build with stub overlay), "none" (twin instances)
 	Note     string
